@@ -1,5 +1,6 @@
 From Ase Require Import Model.Cost.
 From Ase Require Import Proofs.CostProofs.
+From Ase Require Import Spec.Framing Proofs.CostFraming.
 
 Theorem C12_buffered_le_input : forall (A : Type) (t : IT A) bs, 0 <= run_buffered t bs <= zlen bs.
 Proof. exact @buffered_le_input. Qed.
@@ -31,3 +32,43 @@ Theorem C12_bound_partial : forall nframes consumed inflated entities layers zby
   alloc_upper nframes consumed inflated entities layers <= bound consumed.
 Proof. exact alloc_upper_bound. Qed.
 Print Assumptions C12_bound_partial.
+
+(* ---- the byte budget derived from the framing parser (Proofs/CostFraming.v) ----
+   frames_size, chunks_size: 16 bytes per frame, 6 + payload bytes per chunk.  entities_of / layers_of / payloads_of / zbytes_of:
+   the parameters the check measures on the input (tools/checks.py alloc_params): one entity per chunk and per 6 payload bytes,
+   the layer chunks, the cel and tileset chunks and their payload bytes. *)
+
+Theorem C12_consumed_framing : forall bs rh frames rest,
+  run framing bs = Ok ((rh, frames), rest) -> zlen bs - zlen rest = 128 + frames_size frames.
+Proof. exact consumed_framing. Qed.
+Print Assumptions C12_consumed_framing.
+
+Theorem C12_frames_size_chunks : forall frames, frames_size frames = 16 * zlen frames + chunks_size (all_chunks frames).
+Proof. exact frames_size_chunks. Qed.
+Print Assumptions C12_frames_size_chunks.
+
+Theorem C12_bound_framing : forall bs rh frames rest inflated,
+  run framing bs = Ok ((rh, frames), rest) ->
+  0 <= rh_frames rh <= 65535 ->
+  layer_chunks_long (all_chunks frames) ->
+  0 <= inflated <= 1032 * zbytes_of (all_chunks frames) + 64 * payloads_of (all_chunks frames) ->
+  alloc_upper (rh_frames rh) (zlen bs) inflated (entities_of (all_chunks frames)) (layers_of (all_chunks frames))
+  <= bound (zlen bs).
+Proof. exact alloc_upper_framing. Qed.
+Print Assumptions C12_bound_framing.
+
+(* for every byte string that loads, whatever it declares: no accounting hypothesis is left, only the recorded zlib ratio *)
+Theorem C12_bound_loaded : forall (inflate : list Z -> Z -> zres) bs f inflated,
+  Forall is_byte bs -> load inflate bs = Ok f ->
+  exists rh frames rest,
+    run framing bs = Ok ((rh, frames), rest) /\
+    (0 <= inflated <= 1032 * zbytes_of (all_chunks frames) + 64 * payloads_of (all_chunks frames) ->
+     alloc_upper (rh_frames rh) (zlen bs) inflated (entities_of (all_chunks frames)) (layers_of (all_chunks frames))
+     <= bound (zlen bs)).
+Proof. exact alloc_upper_loaded. Qed.
+Print Assumptions C12_bound_loaded.
+
+Theorem C12_layer_chunks_long : forall (inflate : list Z -> Z -> zres) bs f rh frames rest,
+  load inflate bs = Ok f -> run framing bs = Ok ((rh, frames), rest) -> layer_chunks_long (all_chunks frames).
+Proof. exact load_layer_chunks_long. Qed.
+Print Assumptions C12_layer_chunks_long.
